@@ -55,7 +55,7 @@ Proof.
       { intros q Hq H. destruct (I_und _ _ _ _ _ CI q v Hq H) as (_ & Hh & _). specialize (Hh Hvd). rewrite Hvh in Hh. subst q. contradiction. }
       rewrite (sget_valid st F CFn). cbn [rbind]. rewrite Cpar. rewrite (sget_valid st P HPn). cbn [rbind].
       destruct (I_marks _ _ _ _ _ CI P HP) as [Hfor _].
-      rewrite (find_declared_nofor st (sc_of st P) (vn st v) false Hfor).
+      rewrite (find_declared_noskip st (sc_of st P) (vn st v)).
       rewrite a_find_decl_frame.
       (* the step after a merge into w, common to both ways of finding w *)
       assert (Hmerge : forall w L,
